@@ -185,7 +185,14 @@ def trace_part(chk, S, n_examples):
         else:
             pts = rnd.randint(0, 64, size=(N, 2)).astype(float)
         if c['kind'] == 'sample':
-            data = S.load(pts)
+            if c['seed'] % 2:
+                # a single-precision file with a few readings barely below zero
+                pts = pts.copy()
+                pts[::7, 0] = -0.125
+                pts[3::11, 1] = -0.5
+                data = S.load(pts, dt='F')
+            else:
+                data = S.load(pts)
             ch = ['a', 'b']
             bins = [kx + 2, ky + 2] if c['binspec'] in ('mixture', 'edges') else kx + 2
             kw = dict(xscale=c['scale'], yscale=c['scale'])
